@@ -25,6 +25,24 @@ Fixpoint erase (v : value) : value :=
   | VIfData _ items valid => VIfData lay0 items valid
   end.
 
+(* executable form of "this text is a well-formed token of this type" (Proofs/LexUnitsProofs.v: [token_text]) *)
+Definition ident_textb (t : bytes) : bool :=
+  match t with c :: _ => is_alpha c || aeq c "_" | [] => false end && forallb is_identchar t && negb (bytes_eqb t b_a2ml).
+Definition number_textb (t : bytes) : bool :=
+  match t with
+  | c :: tl => (aeq c "-" || is_numchar c) && negb (is_alpha c || aeq c "_") && forallb is_numchar tl
+  | [] => false
+  end && negb (bytes_eqb t ["-"%char]) && negb (bytes_eqb t ["."%char]) && negb (bytes_eqb t ["0"%char; "x"%char]).
+Definition token_textb (sh : shape) : bool :=
+  match fst sh with
+  | TIdentifier => ident_textb (snd sh)
+  | TNumber => number_textb (snd sh)
+  | TString => bytes_eqb (snd sh) (dq :: escape (unescape (strip_quotes (snd sh))) ++ [dq])
+  | TBegin => bytes_eqb (snd sh) begin_text
+  | TEnd => bytes_eqb (snd sh) end_text
+  | TInclude | TComment => false
+  end.
+
 Definition is_blockb (td : tydef) : bool := match t_kind td with KBlock => true | _ => false end.
 Definition simple_ty (ty : fty) : bool :=
   match ty with FStruct _ | FArray _ _ | FSeq _ _ => false | _ => true end.
